@@ -1,7 +1,7 @@
 (* C12 -- statements only; see DESIGN.md section 6 C12.  Theorems are added as the proofs land;
    the witnesses below are evaluated in the kernel on the whole-parser model. *)
 From Coq Require Import String.
-From MdIt Require Import Prims Tables Escape Tree Render Block Inline Core Dump Dispatch RangeProofs EscapeProofs EscapeCtxProofs EscapeTextProofs.
+From MdIt Require Import Prims Tables Escape Tree Render Block Inline Core Dump Dispatch RangeProofs EscapeProofs EscapeCtxProofs EscapeTextProofs Indent CodeProofs CodeSearchProofs LineProofs DocProofs.
 Local Open Scope string_scope.
 Local Open Scope list_scope.
 Local Open Scope N_scope.
@@ -107,6 +107,30 @@ Example C12_context_nonvacuous :
   unescape_all (bs "/p&amp;z\*&#x41;") = bs "/p&z*A" /\ forallb plain (bs "/p") = true.
 Proof. vm_compute. split; reflexivity. Qed.
 
+(* INFO-STRING CONTEXT END TO END (default CommonMark parser): for every fenced document (opening fence with info string,
+   payload lines, closing fence; the hypotheses of C11_fence_document plus "the info string does not start with the
+   marker and, for backtick fences, holds no backtick") the class attribute is the prefix followed by the first word of
+   exactly what the attribute-path decoder unescape_all makes of the info string -- line splitting, block loop, fence rule,
+   inline pass, clean-up, serializer. *)
+Theorem C12_info_string_document : forall (m : N) (n : nat) (pre cpre trail params : str) (n' : nat) (texts : list (list N)) (src : str),
+  m = 96 \/ m = 126 -> (3 <= n)%nat -> forallb is_ws pre = true -> forallb is_ws cpre = true ->
+  cols_from 0 pre < 4 -> cols_from 0 cpre < 4 ->
+  match params with x :: _ => (x =? m) = false | [] => True end -> (m = 96 -> mem 96 params = false) ->
+  (forall T, In T texts -> runs_lt m (N.of_nat n) T = true) -> (n <= n')%nat -> all_sptab trail = true ->
+  texts_of src = (pre ++ repeatN m n ++ params) :: map (fun T => pre ++ T) texts ++ [cpre ++ repeatN m n' ++ trail] ->
+  forall xhtml, html_of_parse (default_fuel md_cmark) md_cmark xhtml src =
+  inr (replace_nul (bs "<pre><code" ++ class_attr (bs "language-") params ++ bs ">" ++ escape_html (out_lines true texts) ++ bs "</code></pre>" ++ [10]%N)).
+Proof. exact fence_info_document_html. Qed.
+
+Example C12_info_string_nonvacuous :
+  class_attr (bs "language-") (bs " r&#117;st\+ &amp; x") = bs " class=""language-rust+""" /\
+  html_of "C" "``` r&#117;st\+ &amp; x
+a
+```" = bs "<pre><code class=""language-rust+"">a
+</code></pre>
+".
+Proof. vm_compute. split; reflexivity. Qed.
+
 Example C12_nonvacuous :
   numeric_code (bs "x1F600") = Some 0x1F600 /\ numeric_code (bs "0000000") = Some 0 /\
   code_to_str 0 = [239; 191; 189] /\ get_entity_from_str (bs "&amp;") = Some [38] /\ is_ascii_punct 96 = true.
@@ -123,3 +147,4 @@ Print Assumptions C12_text_path_same_decoding.
 Print Assumptions C12_text_path_named.
 Print Assumptions C12_text_path_numeric.
 Print Assumptions C12_text_path_escape.
+Print Assumptions C12_info_string_document.
